@@ -127,6 +127,13 @@ FOREIGN = {
     "pair_hist": lambda: (_h1(), {"histogram": {"dim": 1}}),
     "hist_float_bins": lambda: (histogram([0, 1, 2], [1.5, 2.5]), {"a": 1}),
     "hist_no_graph": lambda: (_h1(), {"histogram": {"to_graph": False}}),
+    # not selected (to_graph False) although its bins are (data, context) pairs with a variable
+    "hist_pairbins_no_graph": lambda: (histogram([0, 1, 2], [(1, {"variable": {"name": "n", "k": [1]}}),
+                                                             (2, {"variable": {"name": "n", "k": [2]}})]),
+                                       {"histogram": {"to_graph": False}}),
+    # bins of the same data type as selected ones, but the bin context does not carry the selected key
+    "hist_bins_not_sel": lambda: (histogram([0, 1, 2], [(1, {"sel": {"no": 1}}), (2, {"sel": {"no": 1}})]),
+                                  {"a": 2}),
     # unselected values that carry settings meant for ToCSV (they must not reach a later histogram)
     "hist_no_csv": lambda: (_h1(), {"output": {"to_csv": False, "duplicate_last_bin": False}}),
     "hist2_no_csv": lambda: (histogram([[0, 1, 2], [0, 1]], [[1], [2]]),
@@ -168,7 +175,7 @@ def b_pool(kind, cfg):
         extra = ["str", "str_csv", "str_tex", "str_png", "str_nofiletype", "pair_filename"]
         drop = ["float", "tuple2", "list"]
     elif kind == "HistToGraph":
-        extra = ["str", "hist_no_graph", "graph", "pair_graph", "str_csv", "nested_pair"]
+        extra = ["str", "hist_no_graph", "graph", "pair_graph", "hist_pairbins_no_graph", "nested_pair"]
         drop = ["float", "tuple2", "list"]
     elif kind == "MapBins":
         # cfg "all" selects every histogram; the others select on the type of the bin content
@@ -176,6 +183,8 @@ def b_pool(kind, cfg):
             extra = ["str", "graph", "pair_graph", "str_csv", "nested_pair", "bool"]
         elif cfg == "vec":
             extra = ["str", "graph", "pair_graph", "hist", "pair_hist", "hist_float_bins"]
+        elif cfg == "ctxsel":   # bins selected by a key in the bin context
+            extra = ["str", "graph", "hist_bins_not_sel", "hist", "pair_hist", "hist_float_bins"]
         else:  # int bins selected
             extra = ["str", "graph", "pair_graph", "hist_float_bins", "str_csv", "nested_pair"]
         drop = ["float", "tuple2", "list"]
@@ -219,8 +228,8 @@ def b_subpool(kind, cfg, size=SUBPOOL):
         "RenderLaTeX": ["str", "str_tex", "pair_output_scalar", "int", "pair_disabled"],
         "LaTeXToPDF": ["int", "str_pdf", "pair_output_scalar", "str_csv", "pair_disabled"],
         "PDFToPNG": ["int", "str_tex", "pair_output_scalar", "str_png", "pair_disabled"],
-        "HistToGraph": ["int", "hist_no_graph", "pair_graph", "pair_output_scalar", "pair_empty"],
-        "MapBins": ["int", "pair_graph", "hist_float_bins", "pair_output_scalar", "pair_empty"],
+        "HistToGraph": ["hist_pairbins_no_graph", "int", "hist_no_graph", "pair_graph", "pair_output_scalar"],
+        "MapBins": ["hist_bins_not_sel", "int", "pair_graph", "hist_float_bins", "pair_output_scalar"],
         "IterateBins": ["int", "hist_float_bins", "pair_graph", "pair_output_scalar", "pair_empty"],
         "RunIf": ["int", "pair_sel_false", "pair_empty", "str", "pair_output_scalar"],
         "MapGroup": ["int", "num_with_group", "list_no_group", "pair_output_scalar", "pair_empty"],
@@ -268,7 +277,7 @@ def configs(kind):
         "LaTeXToPDF": ["default", "overwrite", "command"],
         "PDFToPNG": ["default", "overwrite", "jpeg"],
         "HistToGraph": ["default", "middle_scale", "value"],
-        "MapBins": ["all", "int", "vec"],
+        "MapBins": ["all", "int", "vec", "ctxsel"],
         "IterateBins": ["default", "int"],
         "RunIf": ["flag_call", "flag_count", "flag_dup", "flag_drop", "type_call", "str2", "str3"],
         "MapGroup": ["call", "ctx", "two"],
@@ -383,6 +392,10 @@ def build(kind, cfg):
             return lena.structures.MapBins(
                 lena.variables.Variable("x", lambda v: v.x), select_bins=[Vec],
                 drop_bins_context=False)
+        if cfg == "ctxsel":
+            # not a function of the type of the bin content: a key of the bin context decides
+            return lena.structures.MapBins(lena.variables.Variable("add1", lambda x: x + 1),
+                                           select_bins="sel.yes")
     if kind == "IterateBins":
         if cfg == "default":
             return lena.structures.IterateBins()
@@ -487,6 +500,10 @@ _A = {
         "intctx_bins": lambda: (histogram([0, 1, 2], [(1, {"c": 1}), (2, {"c": 1})]), {"a": 1}),
         "vec_bins": lambda: (histogram([0, 1, 2], [Vec(1, 2), Vec(3, 4)]),
                              {"variable": {"name": "v"}}),
+        "sel_bins": lambda: (histogram([0, 1, 2], [(1, {"sel": {"yes": 1}}), (2, {"sel": {"yes": 1}})]),
+                             {"a": 1}),
+        "sel_bins2": lambda: histogram([0, 1, 2], [(5, {"sel": {"yes": 2}, "k": 1}),
+                                                   (6, {"sel": {"yes": 2}, "k": 1})]),
     },
     "IterateBins": {
         "hh": lambda: _nested_hist(False),
@@ -518,7 +535,7 @@ def a_pool(kind, cfg, tier="thorough"):
     if kind == "MapBins":
         return {"all": ["int_bins", "int_bins_ctx", "intctx_bins"],
                 "int": ["int_bins", "int_bins_ctx", "intctx_bins"],
-                "vec": ["vec_bins"]}[cfg]
+                "vec": ["vec_bins"], "ctxsel": ["sel_bins", "sel_bins2"]}[cfg]
     if kind == "IterateBins":
         return {"default": ["hh", "hh_ctx"], "int": ["int_bins"]}[cfg]
     if kind == "RunIf":
